@@ -18,8 +18,10 @@ ASSUMPTIONS = ["the reference rendering of the unaffected elements is the parse 
 
 NS = 'xmlns="http://www.w3.org/2000/svg" xmlns:xlink="http://www.w3.org/1999/xlink"'
 BEFORE = '<rect id="b1" x="1" y="2" width="3" height="4" fill="red" stroke="blue" stroke-width="2"/>'
-INSIDE = '<circle id="i1" cx="5" cy="6" r="7" fill="#123456"/>'
+INSIDE = '<circle id="i1" cx="5" cy="6" r="7" fill="#123456"/><rect id="i2" x="5%" y="5%" width="10%" height="20%"/>'
 AFTER = '<path id="a1" d="M1,1 L2,3 Q4,5 6,7 z" transform="translate(3,4) scale(2)" fill="none" stroke="lime"/><polygon id="a2" points="1,1 2,2 3,1"/>'
+# percentage lengths: they show whether the viewport in force after the faulty element is the right one again
+AFTER += '<rect id="a3" x="10%" y="20%" width="30%" height="40%"/><line id="a4" x1="0" y1="0" x2="100%" y2="50%" stroke="black"/>'
 
 ELEMENTS = {
     "path": ('<path id="f" d="M1,2 L3,4 5,6 z"%s/>', None),
